@@ -33,7 +33,8 @@ const (
 	Hi
 	H63
 	Full
-	Mid // a single value in the middle (32768)
+	Mid  // a single value in the middle (32768)
+	Hole // not a content atom: after building, remove 32768 and 0 (full chunk minus holes)
 	NAtoms
 )
 
@@ -51,6 +52,7 @@ var Atoms = [NAtoms]Atom{
 	H63:    {"h63", 65472, 1, 63, 1},
 	Full:   {"full", 0, 1, 65536, 1},
 	Mid:    {"mid", 32768, 1, 1, 1},
+	Hole:   {"hole", 0, 0, 0, 1},
 }
 
 func (a Atom) IsRange() bool { return a.Count == 1 }
@@ -130,8 +132,18 @@ type Built struct {
 // AddChunk adds the atoms of mask at chunk key to b and to the model.
 func AddChunk(b *roaring.Bitmap, m *model.Set32, key uint16, mask uint32, mode int) {
 	base := uint32(key) << 16
+	defer func() {
+		if mask&(1<<Hole) != 0 {
+			for _, x := range []uint32{base, base | 32768} {
+				b.Remove(x)
+				if m != nil {
+					m.Remove(x)
+				}
+			}
+		}
+	}()
 	for i := 0; i < NAtoms; i++ {
-		if mask&(1<<i) == 0 {
+		if mask&(1<<i) == 0 || i == Hole {
 			continue
 		}
 		a := Atoms[i]
